@@ -67,6 +67,26 @@ pub fn replay(args: &[String]) {
             Err(e) => rep.violation(&["C15"], &format!("engine join failed: {e}"), &json!({"arr": arr}), J::Null, J::Null),
         }
     }
+    // directed: the recorded finding's own example (window 20): A@40, A@10, A@24 arrive in that order, then B@50 - A@40 is in the window
+    {
+        let arr: Vec<J> = [("A", 40), ("A", 10), ("A", 24), ("B", 50)].iter().map(|(s, t)| json!({"src": s, "key": 1, "ts": t})).collect();
+        rep.case(&json!({"w": 20, "directed": "out-of-order arrivals then the other source"}), true);
+        traces.extend(buffer_block(20, &arr));
+    }
+    // directed: a burst of one key that exceeds the buffer's per-key capacity (1000) twice over inside one window, then silence on
+    // that source while event time passes the start of the burst by more than a window, then the other source: the newest burst events
+    // are still inside the window and must be joined (4th argument = burst size; absent = no burst block)
+    if let Some(n) = args.get(3).and_then(|s| s.parse::<i64>().ok()) {
+        let w = 20i64;
+        let mut arr: Vec<J> = (0..n).map(|i| json!({"src": "A", "key": 1, "ts": i * 10 / n})).collect();
+        arr.push(json!({"src": "B", "key": 1, "ts": 25}));
+        arr.push(json!({"src": "A", "key": 1, "ts": 26}));
+        arr.push(json!({"src": "B", "key": 1, "ts": 27}));
+        let b = buffer_block(w, &arr);
+        rep.case(&json!({"w": w, "burst": n}), true);
+        traces.extend(b);
+        if let Ok(b) = engine_block(&rt, w, &arr) { rep.count("engine_blocks", 1); traces.extend(b); }
+    }
     write_ndjson(&args[2], &traces);
     rep.write(&args[1]);
 }
